@@ -7,6 +7,7 @@ import S3V.Driver.Plan
 import S3V.Driver.Sema
 import S3V.Driver.Defer
 import S3V.Driver.Coord
+import S3V.Driver.Args
 
 namespace S3V.Driver
 
@@ -22,6 +23,7 @@ def step (st : DState) (line : String) : DState × String :=
   match toks with
   | ["reset"] => (DState.init, "ok")
   | "plan" :: rest => (st, planStep rest)
+  | "args" :: rest => (st, argsStep rest)
   | "coord" :: rest => let r := coordStep st.coord rest; ({ st with coord := r.1 }, r.2)
   | "defer" :: rest => let r := deferStep st.defer rest; ({ st with defer := r.1 }, r.2)
   | "sema" :: _ | "tsem" :: _ | "cci" :: _ | "bsema" :: _ =>
